@@ -515,6 +515,41 @@ pub fn family(name: &str, thorough: bool, seed: usize) -> Family {
             }
             Family { name: name.into(), lists, hays: gen::strings(b"abc", 0, 4) }
         }
+        // long patterns (9..40 bytes) with short ones nested deep inside them, at their end, and
+        // overlapping their tails; an unrelated pattern; both orders: states at depth >= 8 whose
+        // failure chains run into match states (per-list haystacks walk every prefix / suffix pair)
+        "nest" => {
+            let mut rng = gen::Rng(0x4E57 + seed as u64);
+            let mut lists: Vec<Vec<Vec<u8>>> = vec![
+                vec![b"b".to_vec(), b"aaaaaaaaaabcd".to_vec()],
+                vec![b"aaaaaaaaaabcd".to_vec(), b"b".to_vec()],
+                vec![b"bc".to_vec(), b"xyxyxyxyxybcde".to_vec(), b"e".to_vec()],
+            ];
+            for i in 0..(if thorough { 400 } else { 60 }) {
+                let l = 9 + rng.below(if i % 4 == 0 { 32 } else { 8 });
+                let long = rng.bytes(b"ab", l);
+                let at = 6 + rng.below(l - 6);
+                let k = 1 + rng.below(3.min(l - at));
+                let mut inner = long[at..at + k].to_vec();
+                if i % 3 == 0 {
+                    inner.push(b'c');
+                }
+                let mut list = vec![inner, long.clone()];
+                if i % 2 == 0 {
+                    list.reverse();
+                }
+                if i % 5 == 0 {
+                    list.push(rng.bytes(b"abc", 2));
+                }
+                if i % 7 == 0 {
+                    let mut t = long[l - 4..].to_vec();
+                    t.extend_from_slice(b"ca");
+                    list.insert(0, t);
+                }
+                lists.push(list);
+            }
+            Family { name: name.into(), lists, hays: vec![b"".to_vec(), b"aaaaaaaaaab b".to_vec(), b"aaaaaaaaaabc".to_vec()] }
+        }
         // many patterns (21..64, beyond small-sort thresholds) with duplicated strings; lengths
         // 2..3 over 8 letters; activates the packed prefilter in default configurations
         "many" => {
@@ -633,6 +668,24 @@ pub fn mix_hays(pats: &[Vec<u8>]) -> Vec<Vec<u8>> {
     v
 }
 
+/// haystacks for `nest`: every pattern prefix followed by a foreign byte / nothing, then every pattern
+pub fn nest_hays(pats: &[Vec<u8>]) -> Vec<Vec<u8>> {
+    let mut v: Vec<Vec<u8>> = vec![];
+    for p in pats {
+        for i in 1..=p.len() {
+            for mid in [&b""[..], b" ", b"c"] {
+                for q in pats {
+                    let mut h = p[..i].to_vec();
+                    h.extend_from_slice(mid);
+                    h.extend_from_slice(q);
+                    v.push(h);
+                }
+            }
+        }
+    }
+    v
+}
+
 /// haystacks that walk the trie of this particular list: every pattern prefix followed by every
 /// pattern suffix, with and without a foreign byte after it
 pub fn derived_hays(pats: &[Vec<u8>]) -> Vec<Vec<u8>> {
@@ -721,7 +774,7 @@ pub fn run(args: &Args) -> Report {
                             }
                         }
                     }
-                    let mut derived = if fname == "cimix" { mix_hays(pats) } else if fname == "deep" || fname == "wide" || fname == "bytes" || fname == "many" || fname == "ci" { derived_hays(pats) } else { vec![] };
+                    let mut derived = if fname == "cimix" { mix_hays(pats) } else if fname == "deep" || fname == "wide" || fname == "bytes" || fname == "many" || fname == "ci" { derived_hays(pats) } else if fname == "nest" { nest_hays(pats) } else { vec![] };
                     if ci {
                         // the other letter case at alternating positions
                         let toggled: Vec<Vec<u8>> = derived.iter().map(|h| h.iter().enumerate().map(|(i, &b)| if i % 2 == 0 && b.is_ascii_alphabetic() { b ^ 0x20 } else { b }).collect()).collect();
